@@ -761,6 +761,18 @@ theorem msle_def (a b : List ℝ) (h : List.zipWith (· - ·) a b ≠ []) :
 
 example : List.zipWith (· - ·) [(1 : ℝ), 2] [0, 3] ≠ [] := by simp
 
+/-- the mean squared log error is unchanged by one permutation applied to predictions and truths together -/
+theorem perm_invariant_msle (ps ps' : List (ℝ × ℝ)) (h : ps.Perm ps') :
+    meanSqLogError (ps.map Prod.fst) (ps.map Prod.snd) = meanSqLogError (ps'.map Prod.fst) (ps'.map Prod.snd) := by
+  unfold meanSqLogError
+  have key := (perm_invariant_regression (0 : ℝ)
+    (ps.map fun p => (Transc.ln (1 + p.1), Transc.ln (1 + p.2)))
+    (ps'.map fun p => (Transc.ln (1 + p.1), Transc.ln (1 + p.2))) (h.map _)).2.1
+  rw [List.map_map, List.map_map, List.map_map, List.map_map] at key ⊢
+  exact key
+
+example : ([((1 : ℝ), (2 : ℝ)), (3, 1)]).Perm [(3, 1), (1, 2)] := List.Perm.swap _ _ _
+
 end LogLoss
 
 section Pearson
